@@ -364,8 +364,9 @@ func (o *OperationNormalizer) setupOperationWalkers() {
 
 	if o.options.extractVariables {
 		variablesProcessing := astvisitor.NewWalkerWithID(8, "VariablesProcessing")
-		inputCoercionForList(&variablesProcessing)
+		// default values are extracted first, so that list coercion also applies to them
 		extractVariablesDefaultValue(&variablesProcessing)
+		inputCoercionForList(&variablesProcessing)
 		injectInputFieldDefaults(&variablesProcessing)
 
 		o.operationWalkers = append(o.operationWalkers, walkerStage{
